@@ -489,13 +489,14 @@ func (c *Client) Close() error {
 
 func (c *Client) reconnect(ctx context.Context) error {
 	// fmt.Println("Reconnecting")
-	if c.conn != nil {
-		_ = c.conn.Close()
-		c.conn = nil
-	}
+	// Dial first: if it fails the current (dead) connection is kept, so that the
+	// client never holds a nil connection and the next call tries to reconnect again.
 	stream, err := c.dialer(ctx)
 	if err != nil {
 		return err
+	}
+	if c.conn != nil {
+		_ = c.conn.Close()
 	}
 	c.conn = newConn(stream)
 	return nil
@@ -509,7 +510,10 @@ func (c *Client) reconnect(ctx context.Context) error {
 func (c *Client) doRountrip(ctx context.Context, msg *kmip.RequestMessage) (*kmip.ResponseMessage, error) {
 	c.lock.Lock()
 	defer c.lock.Unlock()
-	if c.conn == nil {
+	// Use a fresh connection if the current one has been torn down by a previous
+	// failure of any kind (reset, broken pipe, decoding error, ...). A connection
+	// closed by the user through Close() is left alone: calls then fail.
+	if c.conn == nil || c.conn.isDead() {
 		if err := c.reconnect(ctx); err != nil {
 			return nil, err
 		}
